@@ -2,13 +2,15 @@ import AiocoapModel.Basic.Bytes
 import AiocoapModel.Blockwise.RefServer
 /-! Line protocol for the block-wise client model.
 
-`C05 R <payload> <szx0> <maxPayload> <resp>*`
+`C05 R <payload> <szx0> <maxPayload> <hint1> <hint2> <resp>*`
     the client machine against a given response sequence (`runClient`);
+    hint1 / hint2 = `-` | `<szx>`: the size exponent of an application-preset Block1 / Block2 option
+    `(0, False, szx)` in the request handed to the API (a Block1 hint is `out-of-model`);
     resp = `<code>:<block1>:<block2>:<etag>:<payload>`, block = `-` | `<num>.<0|1>.<szx>`,
     etag = `n` (absent) | `e<hex>`; payloads are hex (`-` = empty)
     → `<req>* | <outcome>`, req = `<block1>:<block2>:<size1|->:<payload>`,
       outcome = `ok:<code>:<etag>:<payload>` | `err:<PythonClass>` | `pending`
-`C05 I <payload> <szx0> <maxPayload> <rep> <etag> <code> <choice>*`
+`C05 I <payload> <szx0> <maxPayload> <hint1> <hint2> <rep> <etag> <code> <choice>*`
     client and reference server in closed loop (`transfer`); choice = `<szx>.<0|1>`
     → `<req>* | <resp>* | <outcome> | <recorded: n | r<hex>>`
 `C05 B <num> <more> <szx> <maxExp> <payloadSize>`
@@ -41,6 +43,13 @@ def parseEtag (s : String) : Option (Option Bytes) :=
   | ['n'] => some none
   | 'e' :: rest => if rest.isEmpty then some (some []) else (hexCharsToBytes rest).map some
   | _ => none
+
+def parseHint (s : String) : Option (Option Nat) :=
+  if s = "-" then some none else s.toNat?.map some
+
+def hintBad : Option Nat → Bool
+  | none => false
+  | some h => h ≥ 7
 
 def parseResp (s : String) : Option Resp :=
   match s.splitOn ":" with
@@ -89,23 +98,27 @@ def respBad (r : Resp) : Bool := optSzxBad r.block1 || optSzxBad r.block2
 
 def handle (args : List String) : String :=
   match args with
-  | "R" :: payload :: szx0 :: maxPayload :: resps =>
-    match hexToBytes payload, szx0.toNat?, maxPayload.toNat?, resps.mapM parseResp with
-    | some payload, some szx0, some maxPayload, some resps =>
-      if szx0 ≥ 7 || resps.any respBad then "out-of-model" else
-      let res := runClient { payload, szx0, maxPayload } resps
+  | "R" :: payload :: szx0 :: maxPayload :: hint1 :: hint2 :: resps =>
+    match hexToBytes payload, szx0.toNat?, maxPayload.toNat?, parseHint hint1, parseHint hint2,
+          resps.mapM parseResp with
+    | some payload, some szx0, some maxPayload, some hint1, some hint2, some resps =>
+      if szx0 ≥ 7 || hint1.isSome || hintBad hint2 || resps.any respBad then "out-of-model" else
+      let res := runClient { payload, szx0, maxPayload, hint2 } resps
       " ".intercalate (res.1.map showReq) ++ " | " ++ showOutcome res.2
-    | _, _, _, _ => "bad-op"
-  | "I" :: payload :: szx0 :: maxPayload :: rep :: etag :: code :: choices =>
-    match hexToBytes payload, szx0.toNat?, maxPayload.toNat?, hexToBytes rep, parseEtag etag,
-          code.toNat?, choices.mapM parseChoice with
-    | some payload, some szx0, some maxPayload, some rep, some etag, some code, some choices =>
-      if szx0 ≥ 7 || choices.any (fun c => c.szx ≥ 7) then "out-of-model" else
-      let run := transfer { payload, szx0, maxPayload } (Srv.init rep etag code) choices
+    | _, _, _, _, _, _ => "bad-op"
+  | "I" :: payload :: szx0 :: maxPayload :: hint1 :: hint2 :: rep :: etag :: code :: choices =>
+    match hexToBytes payload, szx0.toNat?, maxPayload.toNat?, parseHint hint1, parseHint hint2 with
+    | some payload, some szx0, some maxPayload, some hint1, some hint2 =>
+    (match hexToBytes rep, parseEtag etag, code.toNat?, choices.mapM parseChoice with
+    | some rep, some etag, some code, some choices =>
+      if szx0 ≥ 7 || hint1.isSome || hintBad hint2 || choices.any (fun c => c.szx ≥ 7)
+      then "out-of-model" else
+      let run := transfer { payload, szx0, maxPayload, hint2 } (Srv.init rep etag code) choices
       " ".intercalate (run.reqs.map showReq) ++ " | " ++
       " ".intercalate (run.resps.map showResp) ++ " | " ++ showOutcome run.outcome ++ " | " ++
       (match run.srv.recorded with | none => "n" | some b => "r" ++ (if b.isEmpty then "" else bytesToHex b))
-    | _, _, _, _, _, _, _ => "bad-op"
+    | _, _, _, _ => "bad-op")
+    | _, _, _, _, _ => "bad-op"
   | ["B", num, more, szx, maxExp, psize] =>
     match num.toNat?, more.toNat?, szx.toNat?, maxExp.toNat?, psize.toNat? with
     | some num, some more, some szx, some maxExp, some psize =>
